@@ -15,6 +15,8 @@ tvars == <<wst, schema, cur, done, l, skip, bad, stats>>
 
 Ev == Tr[l]
 Has(f) == f \in DOMAIN Ev
+\* File events of GZIP / ZSTD files carry layout = TRUE (page bodies opaque to the specification)
+Layout == Has("layout") /\ Ev.layout
 
 \* ---- comparison of file / read-back content with the promised table
 NonEmptyGroups(t) == SelectSeq(t, LAMBDA g : g.numRows > 0)
@@ -70,7 +72,7 @@ Verdict ==
       [] Ev.e = "Close" -> IF Ev.st # 0 \/ wst = "failed" THEN {} ELSE IF CanClose THEN {} ELSE {"close-not-enabled"}
       [] Ev.e = "File" ->
             IF wst # "closed" THEN {}                              \* no promise about the file
-            ELSE LET chk == IF Ev.layout THEN FileChecksLayout(Ev.bytes) ELSE FileChecks(Ev.bytes) IN {"file:" \o k : k \in Failed(chk)}
+            ELSE LET chk == IF Layout THEN FileChecksLayout(Ev.bytes) ELSE FileChecks(Ev.bytes) IN {"file:" \o k : k \in Failed(chk)}
       [] Ev.e = "SameBytes" ->                                     \* determinism: second write of the same history
             IF wst # "closed" \/ Ev.same THEN {} ELSE {"file:nondeterministic"}
       [] Ev.e = "Open" ->
@@ -117,7 +119,7 @@ TStep == /\ l <= Len(Tr) /\ Ev.e # "Reset" /\ ~skip
                               /\ stats' = [stats EXCEPT !.events = @ + 1,
                                                         !.failed = IF Has("st") /\ Ev.st # 0 THEN @ + 1 ELSE @]
                ELSE /\ bad' = Append(bad, [l |-> l, id |-> Ev.id, e |-> Ev.e, why |-> v,
-                                            detail |-> IF Ev.e = "File" THEN ParseWhy(Ev.bytes, Ev.layout) ELSE ""])
+                                            detail |-> IF Ev.e = "File" THEN ParseWhy(Ev.bytes, Layout) ELSE ""])
                     /\ skip' = TRUE /\ UNCHANGED <<wst, schema, cur, done, stats>>
          /\ l' = l + 1
 
